@@ -808,6 +808,10 @@ func (r *refEval) evalForm(f []sx, e *env) (sx, *exit) {
 		return r.body(rest[1:], e)
 	case "with-open-file":
 		spec, _ := rest[0].([]sx)
+		if symName(spec[0]) == "c07-const-stream" {
+			// a constant can not be bound: the form fails before its body
+			return nil, r.errExit("constvar")
+		}
 		fe := e.child()
 		fe.bind(symName(spec[0]), handle{"file"})
 		return r.body(rest[1:], fe)
